@@ -29,6 +29,11 @@ pub async fn main() {
         .route("/solve", axum::routing::post(solve))
         .layer(DefaultBodyLimit::disable());
 
+    #[cfg(rssched_verif)]
+    if server::verif_hooks::offer_router(&app) {
+        return;
+    }
+
     let listener = tokio::net::TcpListener::bind(format!("0.0.0.0:{}", port))
         .await
         .unwrap();
